@@ -450,11 +450,17 @@ pub fn dup_tokens() -> Vec<RTok> {
             }
         }
     }
+    // tokens that differ from an earlier one in the range flag only
+    for i in [0usize, 7] {
+        let mut t = v[i].clone();
+        t.range = true;
+        v.push(t);
+    }
     v
 }
 
 pub fn dup_count() -> u64 {
-    n_multisets_upto(12, 3)
+    n_multisets_upto(14, 3)
 }
 
 pub fn dup_map(idx: u64) -> RMap {
@@ -462,7 +468,7 @@ pub fn dup_map(idx: u64) -> RMap {
     RMap {
         sources: vec!["same.js".into(), "same.js".into()],
         names: vec!["same".into(), "same".into()],
-        tokens: multiset_upto_unrank(12, 3, idx).iter().map(|&i| toks[i].clone()).collect(),
+        tokens: multiset_upto_unrank(14, 3, idx).iter().map(|&i| toks[i].clone()).collect(),
         ..Default::default()
     }
 }
